@@ -26,12 +26,6 @@ struct Data {
     cache: TranspositionTable,
 }
 
-impl Data {
-    fn mut_refs(&mut self) -> (&mut Option<Game>, &mut TranspositionTable) {
-        (&mut self.current_game, &mut self.cache)
-    }
-}
-
 /// Enter uci mode and wait for commands
 ///
 /// Specification of UCI standard source
@@ -160,7 +154,9 @@ fn command_go(
     search_is_running: &Arc<AtomicBool>,
 ) -> anyhow::Result<JoinHandle<()>> {
     let mut data = data_mutex.lock().unwrap();
-    let Some(game) = data.current_game.as_mut() else {
+    // The search owns the game it searches: a search thread that was told to stop (by the
+    // timer) but has not finished yet must not see, search or clear the next position
+    let Some(game) = data.current_game.take() else {
         bail!("No game to play, please set a position first");
     };
 
@@ -245,18 +241,12 @@ fn command_go(
         let search_is_running = search_is_running.clone();
         move || {
             let mut data = data_mutex.lock().unwrap();
-            let (current_game, cache) = data.mut_refs();
-            let best_move = get_best_move_until_stop(
-                current_game.as_mut().unwrap(),
-                cache,
-                &search_is_running,
-                depth,
-            );
+            let best_move =
+                get_best_move_until_stop(&game, &mut data.cache, &search_is_running, depth);
 
             // The search is over before the move is announced: a GUI may send its
             // next 'position' and 'go' as soon as it has read the bestmove line
             search_is_running.store(false, Relaxed);
-            *current_game = None;
 
             if let Some(best_move) = best_move {
                 println!("bestmove {}", best_move.uci_notation());
